@@ -11,10 +11,13 @@ import (
 	"path/filepath"
 	"sort"
 	"strings"
+	"sync"
 	"time"
 
 	"vctl/internal/audit"
 	"vctl/internal/grog"
+	"vctl/internal/report"
+	"vctl/internal/rng"
 	"vctl/internal/spec"
 	"vctl/internal/tree"
 )
@@ -33,11 +36,27 @@ type Env struct {
 	LastViews map[string][]spec.DepView // dependency outputs as of each target's last execution
 	Unsure    map[string]bool           // targets whose stored result was left by a cache-disabled build
 	Pending   map[string][]string       // edit operators that changed a target's own state since its last execution
+	Pty       bool                      // builds run on a pseudo terminal (interactive Bubble Tea UI path)
 
 	prevFiles map[string]string
 	prevPkgs  []string
 	buildNo   int
 	Log       []string // human-readable history (for replay files)
+}
+
+var ptyOnce sync.Once
+var ptyOK bool
+
+// MaybeTTY lets one history in `oneIn` run all its builds on a pseudo terminal, where grog
+// starts its interactive UI (different logger, status updates from the worker pool, terminal
+// raw mode): what is judged stays the same.
+func (e *Env) MaybeTTY(run *report.Run, caseKey string, oneIn int) {
+	ptyOnce.Do(func() { ptyOK = grog.PtyAvailable() })
+	r := rng.Derive(uint64(run.Seed), "tty", run.Prop, caseKey)
+	if ptyOK && r.Chance(1, oneIn) {
+		e.Pty = true
+		run.Count("histories_run_on_a_terminal(interactive UI)", 1)
+	}
 }
 
 func Scratch() string {
@@ -194,10 +213,14 @@ func (e *Env) RunBuild(o BuildOpts) *Obs {
 	}
 	args = append(args, o.Flags...)
 	args = append(args, o.Patterns...)
-	res := e.M.Run(args, grog.RunOpts{Cwd: o.Cwd, Build: build, Env: o.Env, Timeout: o.Timeout})
+	res := e.M.Run(args, grog.RunOpts{Cwd: o.Cwd, Build: build, Env: o.Env, Timeout: o.Timeout, Pty: e.Pty})
 	obs := e.readTrace(build)
 	obs.Res = res
-	e.Logf("%s: grog %s (cwd=%q) -> exit %d, executed %v", build, strings.Join(args, " "), o.Cwd, res.Exit, keys(obs.Started))
+	tty := ""
+	if e.Pty {
+		tty = " [on a terminal]"
+	}
+	e.Logf("%s: grog %s (cwd=%q)%s -> exit %d, executed %v", build, strings.Join(args, " "), o.Cwd, tty, res.Exit, keys(obs.Started))
 	return obs
 }
 
